@@ -625,6 +625,12 @@ class Var:
         if unit == b.unit:
             return self.copy() if copy else self
         r = b.unit.ratio(unit)
+        if not copy and ctx().opts.get('alias_forks') and (b.unit.pows or unit.pows):
+            # the caller's (symbolic) unit may coincide with the target: then the conversion is a no-op and
+            # scipp returns the same variable.  Free coin: both cases are explored (frame analysis).
+            if core.decide(core.fresh_bool('alias'), 'to_unit-noop', free=True):
+                ctx().log.append(('alias', b.tag, repr(b.unit), repr(unit)))
+                return self
         f = r.term()
         k = _kind(b.dtype)
         if b.dtype in INTS or b.dtype == BOOL:
